@@ -170,6 +170,10 @@ Proof.
   rewrite Z.sub_0_r, Nat2Z.id. reflexivity.
 Qed.
 
+Lemma drop_tag_ok k d : (k <= length d)%nat -> drop_tag k d = skipn k d.
+Proof. intros H. unfold drop_tag. destruct (Nat.leb_spec k (length d)); [reflexivity | lia]. Qed.
+
+
 (* ------------------------------------------------------------------------------------------------ *)
 (* Unescape *)
 
@@ -355,7 +359,7 @@ Proof.
     unfold nlen. rewrite app_length. unfold le16. cbn [length]. rewrite BIG_val in Hl. lia.
   - reflexivity.
   - cbn [type_priority fst]. pose proof (le16_rd (k + 1) Hk) as H. unfold le16 in *. cbn [app]. rewrite H. reflexivity.
-  - cbn [piece snd]. change 2%Z with (Z.of_nat 2). rewrite slice_drop; [reflexivity |].
+  - cbn [piece snd]. rewrite drop_tag_ok; [reflexivity |].
     rewrite app_length. unfold le16. cbn [length]. lia.
 Qed.
 
@@ -370,7 +374,7 @@ Proof.
     unfold nlen. rewrite app_length. unfold le16. cbn [length]. rewrite BIG_val in Hl. lia.
   - reflexivity.
   - cbn [type_priority fst]. pose proof (le16_rd (k + 1) Hk) as H. unfold le16 in *. cbn [app]. rewrite H. reflexivity.
-  - cbn [piece snd]. change 2%Z with (Z.of_nat 2). rewrite slice_drop; [reflexivity |].
+  - cbn [piece snd]. rewrite drop_tag_ok; [reflexivity |].
     rewrite app_length. unfold le16. cbn [length]. lia.
 Qed.
 
@@ -627,7 +631,7 @@ Proof.
       - assumption.
       - rewrite Forall_concat. assumption. }
     pose proof (unesc_esc_txt (concat strs) Hw []) as Hu. rewrite app_nil_r, unesc_nil, app_nil_r in Hu.
-    rewrite Hu. change 2%Z with (Z.of_nat 2). rewrite slice_drop.
+    rewrite Hu. rewrite drop_tag_ok.
     + unfold strs. cbn [concat]. unfold tag2. reflexivity.
     + unfold strs. cbn [concat]. rewrite !app_length. unfold tag2. cbn [length]. lia.
 Qed.
@@ -1036,17 +1040,18 @@ Proof.
   exists (pres ls' ++ flat_map esc_name_byte l). rewrite <- app_assoc. reflexivity.
 Qed.
 
-Lemma strip_domain_pres p0 dom : strip_domain ((p0 ++ [DOT]) ++ dom ++ [DOT]) dom = Ok p0.
+Lemma strip_domain_pres p0 dom : strip_domain ((p0 ++ [DOT]) ++ dom ++ [DOT]) dom = Some p0.
 Proof.
   unfold strip_domain.
   replace (zlen ((p0 ++ [DOT]) ++ dom ++ [DOT]) - zlen dom - 2)%Z with (Z.of_nat (length p0)).
-  - rewrite slice_take by (rewrite !app_length; lia). rewrite <- !app_assoc. rewrite firstn_app_len. reflexivity.
+  - replace (Z.of_nat (length p0) <? 0)%Z with false by lia. rewrite Nat2Z.id.
+    rewrite <- !app_assoc. rewrite firstn_app_len. reflexivity.
   - unfold zlen. rewrite !app_length. cbn [length]. lia.
 Qed.
 
 Lemma name_piece d dom : d <> [] -> nodot d -> wf_bytes d ->
   exists p0, pres (body_labels d) = p0 ++ [DOT] /\
-             strip_domain (pres (body_labels d) ++ dom ++ [DOT]) dom = Ok p0 /\
+             strip_domain (pres (body_labels d) ++ dom ++ [DOT]) dom = Some p0 /\
              unesc (undotify p0) = d.
 Proof.
   intros Hne Hnd Hwf.
@@ -1125,7 +1130,7 @@ Proof.
     destruct w as [| w0 w']; [contradiction |]. rewrite P5. cbn [bind].
     pose proof (be16_rd (10 * (k + 1)) Hk) as Hb. unfold be16 in Hb. rewrite Hb. reflexivity.
   - reflexivity.
-  - cbn [piece snd]. rewrite Q2. cbn [bind]. rewrite Q3. reflexivity.
+  - cbn [piece snd]. unfold target_piece. rewrite Q2. rewrite Q3. reflexivity.
 Qed.
 
 Lemma rec_ok_srv dom k c : dom_ok dom = true -> c <> [] -> nodot c -> wf_bytes c ->
@@ -1151,7 +1156,7 @@ Proof.
     destruct w as [| w0 w']; [contradiction |]. rewrite P5. cbn [bind].
     pose proof (be16_rd (k + 1) Hk) as Hb. unfold be16 in Hb. rewrite Hb. reflexivity.
   - reflexivity.
-  - cbn [piece snd]. rewrite Q2. cbn [bind]. rewrite Q3. reflexivity.
+  - cbn [piece snd]. unfold target_piece. rewrite Q2. rewrite Q3. reflexivity.
 Qed.
 
 Lemma rec_ok_cname dom k c : dom_ok dom = true -> c <> [] -> nodot c -> wf_bytes c ->
@@ -1197,8 +1202,9 @@ Proof.
     rewrite P5. reflexivity.
   - cbn [fst type_priority]. rewrite Hp. cbn [app]. rewrite HT. reflexivity.
   - cbn [snd piece]. rewrite Q1. cbn [app].
-    change 2%Z with (Z.of_nat 2). rewrite slice_drop by (cbn [length]; lia). cbn [skipn bind].
-    rewrite (strip_domain_pres Y dom). cbn [bind].
+    replace (length (t0 :: t1 :: (Y ++ [DOT]) ++ dom ++ [DOT]) <? 2)%nat with false by (cbn [length]; lia).
+    cbn [skipn]. unfold target_piece.
+    rewrite (strip_domain_pres Y dom).
     unfold undotify in Q3. cbn [filter] in Q3. unfold DOT in Q3 at 1 2.
     destruct (N.eqb_spec t0 46); [contradiction |]. destruct (N.eqb_spec t1 46); [contradiction |].
     cbn [negb] in Q3. fold (undotify Y) in Q3.
@@ -1389,70 +1395,25 @@ Proof.
 Qed.
 
 (* ------------------------------------------------------------------------------------------------ *)
-(* (6) UnwrapDnsResponse: exactly when it panics *)
+(* (6) UnwrapDnsResponse is total (property C12) *)
 
 From Coq Require Import Permutation.
 
-Lemma slice_ok_iff site s lo hi :
-  ((0 <= lo)%Z /\ (lo <= hi)%Z /\ (hi <= zlen s)%Z -> exists r, slice site s lo hi = Ok r) /\
-  (~ ((0 <= lo)%Z /\ (lo <= hi)%Z /\ (hi <= zlen s)%Z) -> slice site s lo hi = Panic site).
+Lemma type_priority_total r : exists p, type_priority r = Ok p.
 Proof.
-  unfold slice. split; intros H.
-  - replace ((0 <=? lo)%Z && (lo <=? hi)%Z && (hi <=? zlen s)%Z) with true by lia. eexists; reflexivity.
-  - replace ((0 <=? lo)%Z && (lo <=? hi)%Z && (hi <=? zlen s)%Z) with false by lia. reflexivity.
+  destruct r as [d | d | l | p n | p w po n | t | ip | ip | t]; cbn [type_priority]; try (eexists; reflexivity).
+  - destruct d as [| a [| b d']]; eexists; reflexivity.
+  - destruct d as [| a [| b d']]; eexists; reflexivity.
+  - destruct l as [| [| a [| b s]] l']; eexists; reflexivity.
+  - destruct t as [| a [| b d']]; eexists; reflexivity.
+  - destruct ip as [| a [| b d']]; eexists; reflexivity.
+  - destruct ip as [| a d']; eexists; reflexivity.
 Qed.
 
-Lemma type_priority_guard r :
-  (prio_guard r = true -> exists p, type_priority r = Ok p) /\
-  (prio_guard r = false -> type_priority r = Panic SITE_PRIO).
+Lemma piece_total dom r : exists c, piece dom r = Ok c.
 Proof.
-  destruct r as [d | d | l | p n | p w po n | t | ip | ip | t]; cbn [prio_guard type_priority].
-  - destruct d as [| a [| b d']]; cbn [length]; split; intros H; try discriminate; try reflexivity; try (eexists; reflexivity); lia.
-  - destruct d as [| a [| b d']]; cbn [length]; split; intros H; try discriminate; try reflexivity; try (eexists; reflexivity); lia.
-  - destruct l as [| [| a [| b s]] l']; split; intros H; try discriminate; try reflexivity; eexists; reflexivity.
-  - split; intros H; [eexists; reflexivity | discriminate].
-  - split; intros H; [eexists; reflexivity | discriminate].
-  - destruct t as [| a [| b d']]; cbn [length]; split; intros H; try discriminate; try reflexivity; try (eexists; reflexivity); lia.
-  - destruct ip as [| a [| b d']]; cbn [length]; split; intros H; try discriminate; try reflexivity; try (eexists; reflexivity); lia.
-  - destruct ip as [| a d']; cbn [length]; split; intros H; try discriminate; try reflexivity; try (eexists; reflexivity); lia.
-  - split; intros H; [eexists; reflexivity | discriminate].
-Qed.
-
-Lemma piece_guard_spec dom r :
-  (piece_guard dom r = true -> exists c, piece dom r = Ok c) /\
-  (piece_guard dom r = false -> piece dom r = Panic SITE_UNWRAP).
-Proof.
-  assert (S2 : forall d : bytes, ((2 <=? length d)%nat = true -> exists c, slice SITE_UNWRAP d 2 (zlen d) = Ok c) /\
-                                 ((2 <=? length d)%nat = false -> slice SITE_UNWRAP d 2 (zlen d) = Panic SITE_UNWRAP)).
-  { intros d. destruct (slice_ok_iff SITE_UNWRAP d 2 (zlen d)) as [A B]. unfold zlen in *.
-    split; intros H; [apply A | apply B]; lia. }
-  assert (SD : forall n : bytes, ((length dom + 2 <=? length n)%nat = true -> exists c, strip_domain n dom = Ok c) /\
-                                 ((length dom + 2 <=? length n)%nat = false -> strip_domain n dom = Panic SITE_UNWRAP)).
-  { intros n. unfold strip_domain. destruct (slice_ok_iff SITE_UNWRAP n 0 (zlen n - zlen dom - 2)) as [A B]. unfold zlen in *.
-    split; intros H; [apply A | apply B]; lia. }
-  destruct r as [d | d | l | p n | p w po n | t | ip | ip | t]; cbn [piece_guard piece].
-  - apply S2.
-  - apply S2.
-  - apply S2.
-  - destruct (SD n) as [A B]. split; intros H.
-    + destruct (A H) as [c ->]. eexists; reflexivity.
-    + rewrite (B H). reflexivity.
-  - destruct (SD n) as [A B]. split; intros H.
-    + destruct (A H) as [c ->]. eexists; reflexivity.
-    + rewrite (B H). reflexivity.
-  - destruct (S2 t) as [A B]. destruct (Nat.leb_spec 2 (length t)) as [H2 | H2].
-    + destruct (A eq_refl) as [t2 E]. rewrite E. cbn [bind].
-      assert (Et2 : t2 = skipn 2 t).
-      { change 2%Z with (Z.of_nat 2) in E. rewrite slice_drop in E by lia. congruence. }
-      destruct (SD t2) as [C D]. subst t2. rewrite skipn_length in C, D.
-      split; intros H.
-      * destruct C as [c ->]; [lia | eexists; reflexivity].
-      * rewrite D by lia. reflexivity.
-    + split; intros H; [lia |]. rewrite B by reflexivity. reflexivity.
-  - apply S2.
-  - destruct (slice_ok_iff SITE_UNWRAP ip 1 (zlen ip)) as [A B]. unfold zlen in *.
-    split; intros H; [apply A | apply B]; lia.
-  - split; intros H; [eexists; reflexivity | discriminate].
+  destruct r as [d | d | l | p n | p w po n | t | ip | ip | t]; cbn [piece]; try (eexists; reflexivity).
+  destruct (length t <? 2)%nat; eexists; reflexivity.
 Qed.
 
 Lemma map_res_all_ok {A B} (f : A -> res B) l : Forall (fun x => exists y, f x = Ok y) l -> exists ys, map_res f l = Ok ys.
@@ -1461,30 +1422,10 @@ Proof.
   cbn [map_res]. rewrite Hy, IH. eexists; reflexivity.
 Qed.
 
-Lemma map_res_some_panic {A B} (f : A -> res B) s l :
-  Forall (fun x => (exists y, f x = Ok y) \/ f x = Panic s) l -> Exists (fun x => f x = Panic s) l ->
-  map_res f l = Panic s.
-Proof.
-  induction 1 as [| x l Hx _ IH]; intros He; [inversion He |].
-  cbn [map_res]. destruct Hx as [[y Hy] | Hp].
-  - rewrite Hy. cbn [bind]. inversion He as [? ? H0 | ? ? H0]; subst; [congruence |]. rewrite (IH H0). reflexivity.
-  - rewrite Hp. reflexivity.
-Qed.
-
 Lemma concat_res_all_ok l : Forall (fun x => exists y, x = Ok y) l -> exists ys, concat_res l = Ok ys.
 Proof.
   induction 1 as [| x l [y Hy] _ [ys IH]]; [eexists; reflexivity |].
   cbn [concat_res]. rewrite Hy, IH. eexists; reflexivity.
-Qed.
-
-Lemma concat_res_some_panic s l :
-  Forall (fun x => (exists y, x = Ok y) \/ x = Panic s) l -> Exists (fun x => x = Panic s) l ->
-  concat_res l = Panic s.
-Proof.
-  induction 1 as [| x l Hx _ IH]; intros He; [inversion He |].
-  cbn [concat_res]. destruct Hx as [[y Hy] | Hp].
-  - rewrite Hy. cbn [bind]. inversion He as [? ? H0 | ? ? H0]; subst; [congruence |]. rewrite (IH H0). reflexivity.
-  - rewrite Hp. reflexivity.
 Qed.
 
 Lemma insert_by_perm x l : Permutation (insert_by x l) (x :: l).
@@ -1517,60 +1458,142 @@ Proof.
   rewrite combine_map_snd by (symmetry; exact HL). apply Permutation_refl.
 Qed.
 
-Lemma forallb_false_Exists {A} (f : A -> bool) l : forallb f l = false -> Exists (fun x => f x = false) l.
+Lemma sorted_answers_total l : exists l', sorted_answers l = Ok l'.
 Proof.
-  induction l as [| x l IH]; [discriminate |].
-  cbn [forallb]. destruct (f x) eqn:E; [intros H; right; apply IH; exact H | intros _; left; exact E].
+  unfold sorted_answers. destruct l as [| a [| b l0]]; try (eexists; reflexivity).
+  destruct (map_res_all_ok type_priority (a :: b :: l0)) as [ps Eps].
+  - apply Forall_forall. intros r _. apply type_priority_total.
+  - rewrite Eps. eexists; reflexivity.
 Qed.
 
-Theorem unwrap_total_partial m dom :
-  (unwrap_guard m dom = true -> exists p, unwrap m dom = Ok p) /\
-  (unwrap_guard m dom = false -> exists s, unwrap m dom = Panic s).
+(* every answer section, whatever its records hold, unwraps to some octet string: never a panic, never an error *)
+Theorem unwrap_total m dom : exists p, unwrap m dom = Ok p.
 Proof.
-  unfold unwrap_guard, unwrap. set (l := m_answers m).
-  (* the priorities *)
-  assert (HP : (match l with _ :: _ :: _ => forallb prio_guard l | _ => true end = true ->
-                exists l', sorted_answers l = Ok l' /\ Permutation l' l) /\
-               (match l with _ :: _ :: _ => forallb prio_guard l | _ => true end = false ->
-                sorted_answers l = Panic SITE_PRIO)).
-  { split.
-    - intros H.
-      assert (exists l', sorted_answers l = Ok l') as [l' E].
-      { unfold sorted_answers. destruct l as [| a [| b l0]]; try (eexists; reflexivity).
-        destruct (map_res_all_ok type_priority (a :: b :: l0)) as [ps Eps].
-        - apply Forall_forall. intros r Hr. rewrite forallb_forall in H. apply type_priority_guard. apply H. exact Hr.
-        - rewrite Eps. eexists; reflexivity. }
-      exists l'. split; [exact E | apply sorted_answers_perm; exact E].
-    - intros H. unfold sorted_answers. destruct l as [| a [| b l0]]; try discriminate.
-      rewrite (map_res_some_panic type_priority SITE_PRIO); [reflexivity | |].
-      + apply Forall_forall. intros r _. destruct (prio_guard r) eqn:G.
-        * left. apply type_priority_guard. exact G.
-        * right. apply type_priority_guard. exact G.
-      + apply forallb_false_Exists in H. eapply Exists_impl; [| exact H]. intros r G. apply type_priority_guard. exact G. }
-  destruct HP as [HP1 HP2].
-  destruct (match l with _ :: _ :: _ => forallb prio_guard l | _ => true end) eqn:G1.
-  - destruct (HP1 eq_refl) as [l' [E Hperm]]. rewrite E. cbn [bind andb].
-    split; intros G2.
-    + apply concat_res_all_ok. apply Forall_forall. intros x Hx. apply in_map_iff in Hx. destruct Hx as [r [<- Hr]].
-      apply piece_guard_spec. rewrite forallb_forall in G2. apply G2. eapply Permutation_in; eassumption.
-    + exists SITE_UNWRAP. apply concat_res_some_panic.
-      * apply Forall_forall. intros x Hx. apply in_map_iff in Hx. destruct Hx as [r [<- Hr]].
-        destruct (piece_guard dom r) eqn:G; [left | right]; apply piece_guard_spec; exact G.
-      * apply forallb_false_Exists in G2. apply Exists_exists in G2. destruct G2 as [r [Hr G]].
-        apply Exists_exists. exists (piece dom r). split.
-        -- apply in_map. eapply Permutation_in; [apply Permutation_sym; exact Hperm | exact Hr].
-        -- apply piece_guard_spec. exact G.
-  - rewrite (HP2 eq_refl). cbn [bind andb]. split; [discriminate | intros _; eexists; reflexivity].
+  unfold unwrap. destruct (sorted_answers_total (m_answers m)) as [l' E]. rewrite E. cbn [bind].
+  apply concat_res_all_ok. apply Forall_forall. intros x Hx. apply in_map_iff in Hx. destruct Hx as [r [<- _]].
+  apply piece_total.
 Qed.
 
-(* witnesses, each from a packed answer section that miekg unpacks without complaint *)
-Theorem unwrap_panics_refuted :
+(* the specification-level model of Msg.Unpack has no panic outcome either *)
+Lemma unpack_name_loop_no_panic : forall fuel w budget s, unpack_name_loop fuel w budget <> Panic s.
+Proof.
+  induction fuel as [| f IH]; intros w budget s; cbn [unpack_name_loop]; [discriminate |].
+  destruct w as [| c r]; [discriminate |].
+  destruct (c =? 0); [discriminate |].
+  destruct (c <? 64).
+  - destruct (length r <? N.to_nat c)%nat; [discriminate |].
+    destruct (budget - (Z.of_N c + 1) <=? 0)%Z; [discriminate |].
+    destruct (unpack_name_loop f (skipn (N.to_nat c) r) (budget - (Z.of_N c + 1))) as [sr | |] eqn:E; cbn [bind]; try discriminate.
+    intros _. eapply IH; exact E.
+  - destruct (192 <=? c); discriminate.
+Qed.
+
+Lemma unpack_name_no_panic w s : unpack_name w <> Panic s.
+Proof.
+  unfold unpack_name. destruct (unpack_name_loop (length w) w 255) as [sr | |] eqn:E; cbn [bind]; try discriminate.
+  intros _. eapply unpack_name_loop_no_panic; exact E.
+Qed.
+
+Lemma unpack_last_name_no_panic rd s : unpack_last_name rd <> Panic s.
+Proof.
+  unfold unpack_last_name. destruct (unpack_name rd) as [sr | |] eqn:E; cbn [bind].
+  - destruct (snd sr); discriminate.
+  - discriminate.
+  - intros _. eapply unpack_name_no_panic; exact E.
+Qed.
+
+Lemma unpack_txt_no_panic : forall fuel rd s, unpack_txt fuel rd <> Panic s.
+Proof.
+  induction fuel as [| f IH]; intros rd s; cbn [unpack_txt]; [discriminate |].
+  destruct rd as [| l r]; [discriminate |].
+  destruct (length r <? N.to_nat l)%nat; [discriminate |].
+  destruct (unpack_txt f (skipn (N.to_nat l) r)) as [rest | |] eqn:E; cbn [bind]; try discriminate.
+  intros _. eapply IH; exact E.
+Qed.
+
+Lemma unpack_soa_no_panic rd s : unpack_soa rd <> Panic s.
+Proof.
+  unfold unpack_soa. destruct (unpack_name rd) as [sr | |] eqn:E; cbn [bind].
+  - destruct (snd sr) as [| x r1]; [discriminate |].
+    destruct (unpack_name (x :: r1)) as [sr2 | |] eqn:E2; cbn [bind].
+    + destruct (Nat.eqb _ 0 && _); discriminate.
+    + discriminate.
+    + intros _. eapply unpack_name_no_panic; exact E2.
+  - discriminate.
+  - intros _. eapply unpack_name_no_panic; exact E.
+Qed.
+
+Lemma unpack_opt_no_panic : forall fuel rd s, unpack_opt fuel rd <> Panic s.
+Proof.
+  induction fuel as [| f IH]; intros rd s; cbn [unpack_opt]; [discriminate |].
+  destruct rd as [| c1 [| c0 [| l1 [| l0 r]]]]; try discriminate.
+  destruct (length r <? N.to_nat (256 * l1 + l0))%nat; [discriminate |].
+  destruct (opt_ok _ _); [| discriminate].
+  destruct (skipn _ r); [discriminate | apply IH].
+Qed.
+
+Lemma unpack_rr_no_panic x s : unpack_rr x <> Panic s.
+Proof.
+  destruct x as [t rd]. unfold unpack_rr. destruct rd as [| r0 rd']; [discriminate |].
+  destruct (t =? 10); [discriminate |]. destruct (t =? 65000); [discriminate |].
+  destruct (t =? 16).
+  { destruct (unpack_txt (length (r0 :: rd')) (r0 :: rd')) as [l | |] eqn:E; cbn [bind]; try discriminate.
+    intros _. eapply unpack_txt_no_panic; exact E. }
+  destruct (t =? 15).
+  { destruct rd' as [| b r]; [discriminate |]. destruct r as [| r1 r']; [discriminate |].
+    destruct (unpack_last_name (r1 :: r')) as [n | |] eqn:E; cbn [bind]; try discriminate.
+    intros _. eapply unpack_last_name_no_panic; exact E. }
+  destruct (t =? 33).
+  { destruct rd' as [| b r]; [discriminate |]. destruct r as [| c [| d r']]; try discriminate.
+    destruct r' as [| e [| g r'']]; try discriminate. destruct r'' as [| r1 r2]; [discriminate |].
+    destruct (unpack_last_name (r1 :: r2)) as [n | |] eqn:E; cbn [bind]; try discriminate.
+    intros _. eapply unpack_last_name_no_panic; exact E. }
+  destruct (t =? 5).
+  { destruct (unpack_last_name (r0 :: rd')) as [n | |] eqn:E; cbn [bind]; try discriminate.
+    intros _. eapply unpack_last_name_no_panic; exact E. }
+  destruct (t =? 28); [destruct (Nat.eqb _ 16); discriminate |].
+  destruct (t =? 1); [destruct (Nat.eqb _ 4); discriminate |].
+  destruct (t =? 2).
+  { destruct (unpack_last_name (r0 :: rd')) as [n | |] eqn:E; cbn [bind]; try discriminate.
+    intros _. eapply unpack_last_name_no_panic; exact E. }
+  destruct (t =? 6).
+  { destruct (unpack_soa (r0 :: rd')) as [n | |] eqn:E; cbn [bind]; try discriminate.
+    intros _. eapply unpack_soa_no_panic; exact E. }
+  destruct (t =? 41).
+  { destruct (unpack_opt (length (r0 :: rd')) (r0 :: rd')) as [n | |] eqn:E; cbn [bind]; try discriminate.
+    intros _. eapply unpack_opt_no_panic; exact E. }
+  destruct (t =? 99).
+  { destruct (unpack_txt (length (r0 :: rd')) (r0 :: rd')) as [l | |] eqn:E; cbn [bind]; try discriminate.
+    intros _. eapply unpack_txt_no_panic; exact E. }
+  discriminate.
+Qed.
+
+Lemma map_res_no_panic {A B} (f : A -> res B) : (forall x s, f x <> Panic s) -> forall l s, map_res f l <> Panic s.
+Proof.
+  intros Hf. induction l as [| x l IH]; intros s; cbn [map_res]; [discriminate |].
+  destruct (f x) as [y | |] eqn:EX; cbn [bind].
+  - destruct (map_res f l) as [ys | |] eqn:EL; cbn [bind]; try discriminate. intros _. eapply IH; reflexivity.
+  - discriminate.
+  - intros _. eapply Hf; exact EX.
+Qed.
+
+Theorem unpack_no_panic w s : unpack w <> Panic s.
+Proof.
+  unfold unpack. destruct (unpack_last_name (w_q w)) as [q | |] eqn:EQ; cbn [bind].
+  - destruct (map_res unpack_rr (firstn (N.to_nat (w_ancount w)) (w_rrs w))) as [a | |] eqn:EA; cbn [bind]; try discriminate.
+    intros _. eapply (map_res_no_panic unpack_rr); [apply unpack_rr_no_panic | exact EA].
+  - discriminate.
+  - intros _. eapply unpack_last_name_no_panic; exact EQ.
+Qed.
+
+(* the answer sections that used to crash the client are skipped now *)
+Theorem unwrap_short_records_skipped :
   (* a record shorter than its order tag *)
-  (exists w m', unpack w = Ok m' /\ unwrap m' (wd "example.org") = Panic SITE_UNWRAP /\ w_rrs w = [(10, [7])]) /\
+  (exists w m', unpack w = Ok m' /\ unwrap m' (wd "example.org") = Ok [] /\ w_rrs w = [(10, [7])]) /\
   (* an MX name shorter than the domain *)
-  (exists w m', unpack w = Ok m' /\ unwrap m' (wd "example.org") = Panic SITE_UNWRAP /\ w_rrs w = [(15, [0; 10; 1; 97; 0])]) /\
-  (* two TXT records, one with a one-character first string: TypePriority indexes past its end *)
-  (exists w m', unpack w = Ok m' /\ unwrap m' (wd "example.org") = Panic SITE_PRIO
+  (exists w m', unpack w = Ok m' /\ unwrap m' (wd "example.org") = Ok [] /\ w_rrs w = [(15, [0; 10; 1; 97; 0])]) /\
+  (* two TXT records, one with a one-character first string: it sorts last and is skipped *)
+  (exists w m', unpack w = Ok m' /\ unwrap m' (wd "example.org") = Ok [118]
                 /\ w_rrs w = [(16, [3; 97; 97; 118]); (16, [1; 98])]).
 Proof.
   split; [| split].
